@@ -221,4 +221,129 @@ theorem newEff_spec {K : Nat} {st : St} (h : RInv K st) {x : Expr} (hx : sigOnly
   · intro i hi
     exact run.subd i (by rw [hrd]; exact hi)
 
+
+/-! ## mounted effects are pending or current -/
+
+/-- the effect is marked dirty, notified, and its task is woken -/
+def pending (st : St) (e : Nat) : Prop :=
+  (st.rs.get e).dirty = true ∧ (st.rs.get e).chan = true ∧ (st.rs.get e).woken = true
+
+/-- a live render effect of the mounted view with body `x`: either it is pending, or what it last
+rendered (`cur`) is the current value of its body and it is subscribed to everything the body reads -/
+structure EffOK (K : Nat) (st : St) (e : Nat) (x : Expr) (cur : Int → Prop) : Prop where
+  ke : K ≤ e
+  lt : e < st.prog.length
+  prog : st.prog[e]? = some (.eff x)
+  alive : (st.rs.get e).alive = true
+  done : (st.rs.get e).done = false
+  task : e ∈ st.tasks
+  ok : pending st e ∨ ((st.rs.get e).dirty = false ∧ cur (evalPure (Reactive.envOf st.rs) x) ∧
+        ∀ i ∈ readsU (Reactive.envOf st.rs) x, e ∈ (st.rs.get i).subs)
+
+theorem EffOK.sigOnly {K : Nat} {st : St} {e : Nat} {x : Expr} {cur : Int → Prop}
+    (h : EffOK K st e x cur) (hi : RInv K st) : sigOnly K x = true := by
+  obtain ⟨y, hy, hs⟩ := hi.effp e h.ke h.lt
+  rw [h.prog] at hy
+  cases hy
+  exact hs
+
+theorem envOf_ext_expr {K : Nat} {A : Nat → Prop} {st st' : St} (hx : Ext K A st st') (hi : RInv K st)
+    {x : Expr} (hs : sigOnly K x = true) :
+    evalPure (Reactive.envOf st'.rs) x = evalPure (Reactive.envOf st.rs) x ∧
+      readsU (Reactive.envOf st'.rs) x = readsU (Reactive.envOf st.rs) x := by
+  simp only [sigOnly, Bool.and_eq_true] at hs
+  exact reads_determine x hs.1.2 (fun i hr => hx.envOf_sig hi.kle (readsU_below x hs.1.1 i hr))
+
+theorem EffOK.ext {K : Nat} {A : Nat → Prop} {st st' : St} {e : Nat} {x : Expr} {cur : Int → Prop}
+    (h : EffOK K st e x cur) (hi : RInv K st) (hx : Ext K A st st') (ha : ¬ A e) : EffOK K st' e x cur := by
+  have hc := hx.ctl e h.lt ha
+  simp only [RView.ctl, Prod.mk.injEq] at hc
+  have hs := h.sigOnly hi
+  have henv := envOf_ext_expr hx hi hs
+  refine ⟨h.ke, by have := hx.len_le; have := h.lt; omega, by rw [hx.prog_get h.lt]; exact h.prog,
+    by rw [hc.2.2.2.2.2.2.2.2.1]; exact h.alive, by rw [hc.2.2.2.2.2.2.2.2.2]; exact h.done,
+    hx.tasks e h.task, ?_⟩
+  rcases h.ok with hp | hcur
+  · left
+    exact ⟨by rw [hc.2.2.2.1]; exact hp.1, by rw [hc.2.2.2.2.1]; exact hp.2.1,
+      by rw [hc.2.2.2.2.2.1]; exact hp.2.2⟩
+  · right
+    refine ⟨by rw [hc.2.2.2.1]; exact hcur.1, by rw [henv.1]; exact hcur.2.1, ?_⟩
+    intro i hr
+    rw [henv.2] at hr
+    exact (hx.subs i e h.lt ha).2 (hcur.2.2 i hr)
+
+/-! ## the mounted tree -/
+
+def GoodAttr (K : Nat) (st : St) : Attr → AState → Prop
+  | .stat n v, .stat n' v' => n = n' ∧ v = v'
+  | .dyn n x, .dyn e n' x' last => n = n' ∧ x = x' ∧ EffOK K st e x (fun v => last = v)
+  | .cls n x, .cls e n' x' last => n = n' ∧ x = x' ∧ EffOK K st e x (fun v => last = (v != 0))
+  | .sty n x, .sty e n' x' last => n = n' ∧ x = x' ∧ EffOK K st e x (fun v => last = v)
+  | _, _ => False
+
+def GoodAttrs (K : Nat) (st : St) : List Attr → List AState → Prop
+  | [], [] => True
+  | a :: as, s :: ss => GoodAttr K st a s ∧ GoodAttrs K st as ss
+  | _, _ => False
+
+/-- the state `t` is a state of the view `v`, and every effect in it is pending or current -/
+def Good (K : Nat) (st : St) : View → RState → Prop
+  | .text s, .text _ s' => s = s'
+  | .unit, .unit _ => True
+  | .elem tag attrs kid, .elem _ tag' as k => tag = tag' ∧ GoodAttrs K st attrs as ∧ Good K st kid k
+  | .seq a b, .seq sa sb => Good K st a sa ∧ Good K st b sb
+  | .dynText x, .dynText e x' _ last => x = x' ∧ EffOK K st e x (fun v => last = v)
+  | .either c a b, .either e c' a' b' left inner =>
+    c = c' ∧ a = a' ∧ b = b' ∧ EffOK K st e c (fun v => left = (v != 0)) ∧
+      (left = true → Good K st a inner) ∧ (left = false → Good K st b inner)
+  | _, _ => False
+
+def AState.effs : AState → List Nat
+  | .stat _ _ => []
+  | .dyn e _ _ _ => [e]
+  | .cls e _ _ _ => [e]
+  | .sty e _ _ _ => [e]
+
+/-- every render effect in a state tree, nested ones included -/
+def effsOf : RState → List Nat
+  | .text _ _ => []
+  | .unit _ => []
+  | .elem _ _ as kid => as.flatMap AState.effs ++ effsOf kid
+  | .seq a b => effsOf a ++ effsOf b
+  | .dynText e _ _ _ => [e]
+  | .either e _ _ _ _ inner => e :: effsOf inner
+  | .show e _ _ _ _ _ inner => e :: effsOf inner
+  | .forK e _ _ _ _ => [e]
+
+theorem GoodAttr.ext {K : Nat} {A : Nat → Prop} {st st' : St} (hi : RInv K st) (hx : Ext K A st st') :
+    ∀ {a : Attr} {s : AState}, GoodAttr K st a s → (∀ e ∈ s.effs, ¬ A e) → GoodAttr K st' a s
+  | .stat _ _, .stat _ _, h, _ => h
+  | .dyn _ _, .dyn e _ _ _, h, ha => ⟨h.1, h.2.1, h.2.2.ext hi hx (ha e (by simp [AState.effs]))⟩
+  | .cls _ _, .cls e _ _ _, h, ha => ⟨h.1, h.2.1, h.2.2.ext hi hx (ha e (by simp [AState.effs]))⟩
+  | .sty _ _, .sty e _ _ _, h, ha => ⟨h.1, h.2.1, h.2.2.ext hi hx (ha e (by simp [AState.effs]))⟩
+  | .stat _ _, .dyn _ _ _ _, h, _ => h.elim
+  | .stat _ _, .cls _ _ _ _, h, _ => h.elim
+  | .stat _ _, .sty _ _ _ _, h, _ => h.elim
+  | .dyn _ _, .stat _ _, h, _ => h.elim
+  | .dyn _ _, .cls _ _ _ _, h, _ => h.elim
+  | .dyn _ _, .sty _ _ _ _, h, _ => h.elim
+  | .cls _ _, .stat _ _, h, _ => h.elim
+  | .cls _ _, .dyn _ _ _ _, h, _ => h.elim
+  | .cls _ _, .sty _ _ _ _, h, _ => h.elim
+  | .sty _ _, .stat _ _, h, _ => h.elim
+  | .sty _ _, .dyn _ _ _ _, h, _ => h.elim
+  | .sty _ _, .cls _ _ _ _, h, _ => h.elim
+
+theorem GoodAttrs.ext {K : Nat} {A : Nat → Prop} {st st' : St} (hi : RInv K st) (hx : Ext K A st st') :
+    ∀ {as : List Attr} {ss : List AState}, GoodAttrs K st as ss → (∀ e ∈ ss.flatMap AState.effs, ¬ A e) →
+      GoodAttrs K st' as ss
+  | [], [], _, _ => trivial
+  | _ :: _, s :: ss, h, ha =>
+    ⟨h.1.ext hi hx (fun e he => ha e (by simp [he])),
+     GoodAttrs.ext hi hx h.2 (fun e he => ha e (by
+       simp only [List.flatMap_cons, List.mem_append]; exact Or.inr he))⟩
+  | [], _ :: _, h, _ => h.elim
+  | _ :: _, [], h, _ => h.elim
+
 end Leptos.RView
